@@ -94,7 +94,7 @@ theorem adjustWith_keep (cfg : Cfg) {a : AS} (h : HInv a.hs) (hd : Disj a) (amou
   unfold AS.adjustWith
   simp only
   set a1 : AS := { a with total := a.total + amount,
-                          ema := some (Ema.update a.ema i.w ((a.total + amount : Int) : Rat)),
+                          ema := some i.avg, clock := MonoClock.sample a.clock i.now,
                           adjIn := rest, bad := a.bad || missing } with ha1
   have k1 : Keep a a1 := Keep.of_same h rfl
   have hd1 : Disj a1 := hd
